@@ -42,7 +42,8 @@ def threshold_args():
 class P(Prop):
     ID = "C10"
     MODULE = "C10"
-    THEOREMS = ["C10_thr_values", "C10_form_series", "C10_form_closed", "C10_trunc", "C10_no_jump", "C10_at_one", "C10_series_accuracy_float", "C10_series_hypotheses_hold"]
+    THEOREMS = ["C10_thr_values", "C10_form_series", "C10_form_closed", "C10_trunc", "C10_no_jump", "C10_at_one", "C10_series_accuracy_float", "C10_series_hypotheses_hold",
+                "C10_closed_accuracy_float", "C10_closed_form_exact", "C10_closed_hypotheses_hold"]
     KERNELS = [NAME, "taylor::exp_5_taylor", "taylor::exp_5_tail_taylor", "taylor::exp_5_tail_anal"]
     RULE = ("IntOfLogPoly4::evaluate (and the exponential-tail kernels on their own) run bit-exactly model vs crate with libm values "
             "shared through tables; arguments: every k-th float within 4096 ulps of v=1 and of the two switch points e^1.71, e^-1.72 "
@@ -124,9 +125,21 @@ class P(Prop):
             return None
         xh = lb ^ C.SIGN
         x = C.fl(xh)
-        if not (-1.71 < x < 1.72):
+        if x != x:
             return None
-        return "hyp_safe [e_series] %s" % C.zlist(list(case["args"]) + [xh])
+        if -1.71 < x < 1.72:
+            return "hyp_safe [e_series] %s" % C.zlist(list(case["args"]) + [xh])
+        # closed-form branch (C10_closed_accuracy_float): r^ = 1 (/) x^ and the exponential the platform returned for 1 (/) r^
+        if x == 0 or x in (float("inf"), float("-inf")):
+            return None
+        rh = 1.0 / x
+        if rh == 0:
+            return None
+        et = dict((a, b) for a, b in h.get("exp", []))
+        eb = et.get(C.bits(1.0 / rh))
+        if eb is None:
+            return None
+        return "hyp_safe [e_closed] %s" % C.zlist(list(case["args"]) + [xh, C.bits(rh), eb])
 
     def coq_term(self, case, h):
         return K.kernel_term(case, h)
